@@ -61,6 +61,8 @@ structure RunOut where
   unmodelled : Bool
   /-- per main-loop line: (is directive, the line, the text-block lines it consumed) -/
   items : List (Bool × Bytes × List Bytes) := []
+  /-- the model state before each item -/
+  eds : List Ed := []
 
 /-- run the whole script through the model -/
 def runModel (files : List (Bytes × Option Bytes)) (opens : List Bytes) (script : List Bytes) : RunOut :=
@@ -73,21 +75,21 @@ def runModel (files : List (Bytes × Option Bytes)) (opens : List Bytes) (script
   | none => { steps := ["trap"], trapped := true, unmodelled := false }
   | some (rc, ed) =>
     let first := showStep rc ed fnames
-    let rec loop : Nat → Ed → List String → List (Bool × Bytes × List Bytes) → RunOut
-      | 0, _, acc, its => { steps := acc, trapped := false, unmodelled := false, items := its }
-      | f + 1, ed, acc, its =>
-        if ed.xquit then { steps := acc, trapped := false, unmodelled := ed.unmodelled, items := its } else
+    let rec loop : Nat → Ed → List String → List (Bool × Bytes × List Bytes) → List Ed → RunOut
+      | 0, _, acc, its, eds => { steps := acc, trapped := false, unmodelled := false, items := its, eds := eds }
+      | f + 1, ed, acc, its, eds =>
+        if ed.xquit then { steps := acc, trapped := false, unmodelled := ed.unmodelled, items := its, eds := eds } else
         match ed.input with
-        | [] => { steps := acc, trapped := false, unmodelled := ed.unmodelled, items := its }
+        | [] => { steps := acc, trapped := false, unmodelled := ed.unmodelled, items := its, eds := eds }
         | ln :: rest =>
-          if ln.take 2 == [64, 64] then loop f (directive { ed with input := rest } ln) (acc ++ ["D"]) (its ++ [(true, ln, [])])
+          if ln.take 2 == [64, 64] then loop f (directive { ed with input := rest } ln) (acc ++ ["D"]) (its ++ [(true, ln, [])]) (eds ++ [ed])
           else
             match exStep ed with
-            | none => { steps := acc ++ ["trap"], trapped := true, unmodelled := ed.unmodelled, items := its }
+            | none => { steps := acc ++ ["trap"], trapped := true, unmodelled := ed.unmodelled, items := its, eds := eds }
             | some (rc, ed') =>
               let used := rest.take (rest.length - ed'.input.length)
-              loop f ed' (acc ++ [showStep rc ed' fnames]) (its ++ [(false, ln, used)])
-    loop (script.length + 2) { ed with input := script, out := [], msg := [] } [first] []
+              loop f ed' (acc ++ [showStep rc ed' fnames]) (its ++ [(false, ln, used)]) (eds ++ [ed])
+    loop (script.length + 2) { ed with input := script, out := [], msg := [] } [first] [] []
 
 def fieldNames : List String := ["rc", "xrow", "xoff", "quit", "len", "text", "out", "msg", "bufs", "regs", "files", "marks", "kwd", "fired"]
 
